@@ -642,6 +642,35 @@ func (e *Env) call(n *SNode) SV {
 			x.assumeGlobal(B.Or(differs, eq), "definition of fileSeg, instantiated")
 		}
 		return svTerm(eq)
+	case "addr":
+		// addr(p.f): the address of field f of the object p points to (the term the
+		// executor uses for &p.f)
+		sel := n.Args[0]
+		if sel.Kind != "sel" {
+			e.fail("addr needs a field selection")
+		}
+		base := e.eval(sel.Args[0])
+		if base.V == nil {
+			e.fail("addr: base is not a Go value")
+		}
+		pt, ok := base.V.T.Underlying().(*types.Pointer)
+		if !ok {
+			e.fail("addr: base is not a pointer")
+		}
+		st, ok := pt.Elem().Underlying().(*types.Struct)
+		if !ok {
+			e.fail("addr: base does not point to a struct")
+		}
+		if idx, _ := findField(st, sel.Name); idx < 0 {
+			e.fail("addr: no field %s", sel.Name)
+		}
+		l := x.locOf(base.V.One(), pt.Elem())
+		nl := *l
+		if nl.Kind == LBox || nl.Kind == LArr {
+			nl = Loc{Kind: LObj, Ref: base.V.One(), T: pt.Elem()}
+		}
+		nl.Path += "." + sel.Name
+		return svTerm(x.ptrOf(&nl))
 	case "deref":
 		// deref(p): the value a pointer (or a pointer boxed in an interface, as in
 		// binary.Read(r, order, &x)) points to, in the current state
